@@ -199,3 +199,46 @@ func errGenesis(pi *kernel.PanicInfo) error {
 }
 
 func runtimeStack(buf []byte) int { return runtime.Stack(buf, false) }
+
+// traceKinds: the set of (message type, route) pairs and fault kinds of a trace plus the shape of its configuration;
+// used in run fingerprints so that "distinct" counts different histories, not different sizes.
+func traceKinds(tr *kernel.Trace) string {
+	if tr == nil {
+		return ""
+	}
+	seen := map[string]bool{}
+	for _, b := range tr.Blocks {
+		for _, t := range b.Txs {
+			k := t.Note
+			for _, m := range t.Msgs {
+				s := string(m)
+				if i := indexOf(s, "@type"); i >= 0 {
+					e := s[i:]
+					if j := indexOf(e, ","); j > 0 {
+						e = e[:j]
+					}
+					k += e
+				}
+			}
+			seen[k+"/"+t.Route] = true
+		}
+		if b.Crash != 0 {
+			seen["crash"] = true
+		}
+		if b.Export {
+			seen["export"] = true
+		}
+		if len(b.BankFail) > 0 {
+			seen["bankfail"] = true
+		}
+	}
+	out := ""
+	for _, k := range kernel.SortedKeys(seen) {
+		out += k + ";"
+	}
+	var gs disttypes.GenesisState
+	if len(tr.Spec.Distributor) > 0 && kernel.Enc().Marshaler.UnmarshalJSON(tr.Spec.Distributor, &gs) == nil {
+		out += distShape(gs.Params)
+	}
+	return out
+}
